@@ -376,11 +376,12 @@ def peval(fn, start, known, max_paths=400, max_steps=60000, _depth=0):
     ('call', callee, block) / ('bin', op, a_text, b_text, block) / ('agg', adt, variant, block) / ('ret', text)."""
     from .panics import place_sig
     out = []
-    work = [(start, {}, (), frozenset())]
+    work = [(start, {}, (), frozenset(), {})]
     steps = 0
     while work:
-        b, env, events, seen = work.pop()
+        b, env, events, seen, wenv = work.pop()
         env = dict(env)
+        wenv = dict(wenv)
         events = list(events)
         while True:
             steps += 1
@@ -397,16 +398,29 @@ def peval(fn, start, known, max_paths=400, max_steps=60000, _depth=0):
                 rv = st["rv"]
                 val = None
                 k = rv["k"]
+                wrapped = None      # a wrapper value (Ok/Err/Some/None/Continue/Break) with a known payload
                 if k == "discr":
                     sig = place_sig(fn, rv["of"])
                     if sig in known:
                         for dv, name in rv["vars"]:
                             if name == known[sig]:
                                 val = ("c", dv)
+                    w = wenv.get(rv["of"]["l"]) if not rv["of"]["p"] else None
+                    if val is None and w is not None:
+                        for dv, name in rv["vars"]:
+                            if name == w[0]:
+                                val = ("c", dv)
                 elif k == "use":
                     val = _const_of(fn, rv["a"], env)
                     if val is not None:
                         val = ("c", val[1]) if isinstance(val[1], int) else None
+                    pl_ = (rv["a"].get("copy") or rv["a"].get("move")) if isinstance(rv["a"], dict) else None
+                    if pl_ is not None and not pl_["p"] and pl_["l"] in wenv:
+                        wrapped = wenv[pl_["l"]]
+                    elif pl_ is not None and pl_["l"] in wenv and len(pl_["p"]) == 2 and isinstance(pl_["p"][0], dict) and pl_["p"][0].get("as") == wenv[pl_["l"]][0] and isinstance(pl_["p"][1], dict) and str(pl_["p"][1].get("f")) == "0":
+                        pay = wenv[pl_["l"]][1]
+                        if pay is not None and isinstance(pay[1], int):
+                            val = ("c", pay[1])
                 elif k == "un" and rv["op"] == "Not":
                     v = _const_of(fn, rv["a"], env)
                     if v and v[0] == "c" and v[1] in (0, 1):
@@ -421,11 +435,17 @@ def peval(fn, start, known, max_paths=400, max_steps=60000, _depth=0):
                         val = ("c", int((va[1] == vb[1]) == (rv["op"] == "Eq")))
                 elif k == "agg":
                     events.append(("agg", norm(rv["adt"]), rv["variant"], b, tuple(show(fn.expr(a, 2)) for a in rv["ops"])))
+                    if rv["variant"] in ("Ok", "Err", "Some", "None", "Continue", "Break") and len(rv["ops"]) <= 1:
+                        wrapped = (rv["variant"], _const_of(fn, rv["ops"][0], env) if rv["ops"] else None)
                 if not lhs["p"]:
                     if val is None:
                         env.pop(lhs["l"], None)
                     else:
                         env[lhs["l"]] = ("c", val[1], str(val[1]))
+                    if wrapped is None:
+                        wenv.pop(lhs["l"], None)
+                    else:
+                        wenv[lhs["l"]] = wrapped
             t = blk["t"]
             k = t["k"]
             if k == "return":
@@ -443,6 +463,15 @@ def peval(fn, start, known, max_paths=400, max_steps=60000, _depth=0):
                     break
                 if not t["dest"]["p"]:
                     env.pop(t["dest"]["l"], None)
+                    wenv.pop(t["dest"]["l"], None)
+                    if cal.endswith("::branch") and t.get("args"):
+                        apl = (t["args"][0].get("move") or t["args"][0].get("copy")) if isinstance(t["args"][0], dict) else None
+                        if apl is not None and not apl["p"] and apl["l"] in wenv:
+                            w = wenv[apl["l"]]
+                            if w[0] in ("Ok", "Some"):
+                                wenv[t["dest"]["l"]] = ("Continue", w[1])
+                            elif w[0] in ("Err", "None"):
+                                wenv[t["dest"]["l"]] = ("Break", w[1])
                     # derived PartialEq on a fieldless enum whose discriminant is fixed: x == Enum::Variant
                     if (cal.endswith("PartialEq>::eq") or cal.endswith("PartialEq>::ne")) and len(t.get("args", [])) == 2:
                         r = _enum_eq(fn, t["args"], known)
@@ -470,7 +499,7 @@ def peval(fn, start, known, max_paths=400, max_steps=60000, _depth=0):
                 if t["else"] not in tg and fn.blocks[t["else"]]["t"]["k"] != "unreachable":
                     tg.append(t["else"])
                 for tgt in tg[1:]:
-                    work.append((tgt, env, tuple(events), seen))
+                    work.append((tgt, env, tuple(events), seen, wenv))
                 b = tg[0]
                 continue
             if k == "unreachable":
